@@ -57,6 +57,14 @@ def is_u8_sink_type(ty):
                  "dyn std::io::Write", "bytes::BytesMut", "bytes::bytes_mut::BytesMut") or t.get("k") == "param" or "Cursor<" in s and "Vec<u8>" in s
 
 
+class Frame:
+    """one activation on a replayed path: the outermost function or an inlined local callee"""
+    __slots__ = ("body", "it", "ret", "depth")
+
+    def __init__(self, body, it, ret, depth):
+        self.body, self.it, self.ret, self.depth = body, it, ret, depth
+
+
 class Extractor:
     """mode 'w': tokens are writes to the sink; mode 'r': tokens are reads from the source.
     sink_pred(it, S, recv_sv, recv_type) decides whether a receiver is the tracked byte stream.
@@ -76,6 +84,11 @@ class Extractor:
             self.fix = Interp(self.ctx, self.body, entry)
             self.fix.run()
         self.it.cond = dict(self.fix.cond)
+        self.it_cond = self.it.cond
+        self.inline = False          # continue paths inside small local callees instead of applying their summaries
+        self.inline_depth = 2
+        self.inline_blocks = 30
+        self.inline_pred = None
         self.sink_pred = sink_pred or (lambda it, S, v, ty: is_u8_sink_type(ty))
         self.max_paths = max_paths
         self.paths = []
@@ -86,6 +99,7 @@ class Extractor:
         self.track_stores = False
         self.track_ext = False
         self.track_local_muts = False
+        self.probe = None        # optional f(it, S) -> hashable, evaluated on the path state at every return ("probe" token)
         self.order = []          # read call result SVs in path order (DFS stack discipline)
         self.read_sites = [(self.body.key, bi) for bi, t in self.body.calls() if callee_name(t) in READ_CALLS or callee_name(t) == "std::io::Read::read"]
         self.follow = follow or (lambda callee_body, t: True)
@@ -96,10 +110,15 @@ class Extractor:
         I.CUR_BODY[0] = self.body
         saved = A.WRITE_LOG
         A.WRITE_LOG = None
+        self.outer = Frame(self.body, self.it, None, 0)
+        self.outer_self = None
         try:
-            self._dfs(0, [], {}, frozenset(), "ret", self.it.initial_state())
+            S0 = self.it.initial_state()
+            self.outer_self = S0.read((self.it.L(1), ()))
+            self._dfs(self.outer, 0, [], {}, frozenset(), "ret", S0)
         finally:
             A.WRITE_LOG = saved
+            self.body, self.it = self.outer.body, self.outer.it
         seen = []
         sset = set()
         for p in self.paths:
@@ -127,11 +146,87 @@ class Extractor:
             res = "err" if callee_name(t).endswith("::from_residual") else "ok|err"
         return res
 
-    def _dfs(self, bi, toks, used, exiting, res, S_in):
+    # ---------------------------------------------------------------- inlining of small local callees
+    def _should_inline(self, fr, t):
+        if not self.inline or t.get("t") is None:
+            return False
+        cb = self.prog.bodies.get(callee_path(t))
+        if cb is None or cb.kind in ("closure", "promoted") or is_derived(cb) or cb.loops or fr.depth >= self.inline_depth:
+            return False
+        if sum(1 for b in cb.blocks if not b["cleanup"]) > self.inline_blocks:
+            return False
+        if len(t["args"]) != cb.arg_count:
+            return False
+        f = fr
+        while f is not None:
+            if f.body.key == cb.key:
+                return False
+            f = f.ret[0] if f.ret else None
+        return self.inline_pred(cb, t) if self.inline_pred else True
+
+    def _enter(self, fr, bi, toks, used, exiting, res, S):
+        """continue the path inside the callee of block bi's call: parameters are bound to the argument values, memory is shared"""
+        body, it = fr.body, fr.it
+        t = body.blocks[bi]["term"]
+        cb = self.prog.bodies[callee_path(t)]
+        cit = Interp(self.ctx, cb, None)
+        cit.cond = self.it_cond
+        cit.site_tag = (fr.it.site_tag, body.key, bi) if getattr(fr.it, "site_tag", None) is not None else (body.key, bi)
+        it.cur = (bi, len(body.blocks[bi]["stmts"]))
+        it.counter = 0
+        args = [it.eval_op(S, a) for a in t["args"]]
+        S2 = S.copy()
+        for i, a in enumerate(args):
+            S2.write((cit.L(i + 1), ()), a)
+        nfr = Frame(cb, cit, (fr, bi, used, exiting, res), fr.depth + 1)
+        self._dfs(nfr, 0, toks, {}, frozenset(), res, S2)
+
+    def _leave(self, fr, toks, S):
+        """the callee returned: bind the result in the caller and go on after the call"""
+        cfr, cbi, cused, cexiting, cres = fr.ret
+        v = S.read((fr.it.L(0), ()))
+        ct = cfr.body.blocks[cbi]["term"]
+        self.body, self.it = cfr.body, cfr.it
+        cfr.it.cur = (cbi, len(cfr.body.blocks[cbi]["stmts"]))
+        cfr.it.counter = 0
+        loc = cfr.it.resolve(S, Place(ct["dest"]))
+        S.write(loc, v)
+        extra = []
+        if cfr.ret is None and ct["dest"]["l"] == 0 and not ct["dest"]["p"]:
+            extra.append(self.return_token(S))
+        self._edge(cfr, cbi, ct["t"], S, toks, cused, cexiting, cres, extra)
+
+    def _edge(self, fr, bi, s, S2, toks, used, exiting, res, extra):
+        body = fr.body
+        if body.blocks[s]["cleanup"]:
+            return
+        e = (bi, s)
+        n = used.get(e, 0)
+        is_back = e in body.back_edges
+        if is_back and s in exiting:
+            return           # a loop body is traversed once per path
+        if n >= (2 if any(bi in body.loops[h] for h in exiting) else 1):
+            return
+        ex2 = exiting
+        if is_back:
+            extra = extra + [("again",)]
+            ex2 = exiting | {s}
+            # values created inside the loop are re-created on the next visit: continue from the
+            # (joined) fixpoint state of the loop head instead of the path state
+            S2 = self.fix.entry_states.get(s)
+            if S2 is None:
+                return
+        u2 = dict(used)
+        u2[e] = n + 1
+        self._dfs(fr, s, toks + extra, u2, ex2, res, S2)
+
+    def _dfs(self, fr, bi, toks, used, exiting, res, S_in):
         if len(self.paths) >= self.max_paths:
             self.truncated = True
             return
-        body, it = self.body, self.it
+        self.body, self.it = fr.body, fr.it
+        body, it = fr.body, fr.it
+        outer = fr.ret is None
         blk = body.blocks[bi]
         t = blk["term"]
         S = S_in.copy()
@@ -143,16 +238,15 @@ class Extractor:
             if S.dead:
                 return
             if st["place"]["l"] == 0 and not st["place"]["p"]:
-                rets.append(self.return_token(S))
-            elif self.track_stores and st["place"]["p"] and st["place"]["p"][0] == "*" and st["place"]["l"] == 1:
-                pl = Place(st["place"])
-                loc = it.resolve(S, pl)
-                fld = ".".join(e[2] for e in loc[1] if e[0] in ("f",))
-                rets.append(("store", fld, render_value(self.prog, S.read(loc), names=self.names())))
+                if outer:
+                    rets.append(self.return_token(S))
             elif self.track_stores and st["place"]["p"] and st["place"]["p"][0] == "*":
                 pl = Place(st["place"])
                 loc = it.resolve(S, pl)
-                if loc[0][0] == "P" and not is_param_load(loc[0][1]):
+                if (outer and st["place"]["l"] == 1) or (not outer and loc[0] == ("P", self.outer_self)):
+                    fld = ".".join(e[2] for e in loc[1] if e[0] in ("f",))
+                    rets.append(("store", fld, render_value(self.prog, S.read(loc), names=self.names())))
+                elif loc[0][0] == "P" and not is_param_load(loc[0][1]):
                     from .interp import stable_loc
                     rets.append(("store", "via:" + stable_loc(loc), render_value(self.prog, S.read(loc), names=self.names())))
         it.cur = (bi, len(blk["stmts"]))
@@ -160,9 +254,15 @@ class Extractor:
         mark = len(self.order)
         new = self.tokens_of_block(bi, S)
         toks = toks + rets + new
-        res = self._result_of_block(bi, res)
+        if outer:
+            res = self._result_of_block(bi, res)
         k = t["k"]
         if k == "return":
+            if not outer:
+                self._leave(fr, toks, S)
+                self.body, self.it = fr.body, fr.it
+                del self.order[mark:]
+                return
             if self.track_stores:
                 fin = []
                 nm = self.names()
@@ -175,7 +275,14 @@ class Extractor:
                                 if pr == (("len",),):
                                     fin.append((fld + ".len", render_value(self.prog, lv, names=nm)))
                 toks = toks + [("final", tuple(sorted(fin)))]
+            if self.probe is not None:
+                toks = toks + [("probe", self.probe(it, S))]
             self.paths.append(tuple(toks + [("end", res)]))
+            del self.order[mark:]
+            return
+        if k == "call" and self._should_inline(fr, t):
+            self._enter(fr, bi, toks, used, exiting, res, S)
+            self.body, self.it = fr.body, fr.it
             del self.order[mark:]
             return
         dec = it.eval_op(S, t["discr"]) if k == "switch" else None
@@ -188,30 +295,14 @@ class Extractor:
             del self.order[mark:]
             return
         for s, S2 in edges:
-            e = (bi, s)
-            n = used.get(e, 0)
-            is_back = e in body.back_edges
-            if is_back and s in exiting:
-                continue           # a loop body is traversed once per path
-            if n >= (2 if any(bi in body.loops[h] for h in exiting) else 1):
-                continue
+            self.body, self.it = fr.body, fr.it
             extra = []
-            if k == "call" and t["dest"]["l"] == 0 and not t["dest"]["p"]:
+            if outer and k == "call" and t["dest"]["l"] == 0 and not t["dest"]["p"]:
                 extra.append(self.return_token(S2))
             if k == "switch":
                 extra = extra + self.decision_token(bi, s, dec)
-            ex2 = exiting
-            if is_back:
-                extra = extra + [("again",)]
-                ex2 = exiting | {s}
-                # values created inside the loop are re-created on the next visit: continue from the
-                # (joined) fixpoint state of the loop head instead of the path state
-                S2 = self.fix.entry_states.get(s)
-                if S2 is None:
-                    continue
-            u2 = dict(used)
-            u2[e] = n + 1
-            self._dfs(s, toks + extra, u2, ex2, res, S2)
+            self._edge(fr, bi, s, S2, toks, used, exiting, res, extra)
+        self.body, self.it = fr.body, fr.it
         del self.order[mark:]
 
     def names(self):
@@ -450,9 +541,37 @@ def reads(env, key, entry=None, follow=None, all_local_calls=False, takes=False,
     return ex.run()
 
 
-def trace(env, key, mode="w", entry=None):
-    """everything: sink writes or reads, all local calls with rendered arguments, stores to self, mutating library calls on self"""
+_UNITS = {}
+
+
+def named_units(prog):
+    """function names that some rule refers to (string literals in the rule sources that are names of functions of the program):
+    these are the units the rules reason about one by one; every other small loop-free local callee is a helper whose paths
+    are followed in place, so that moving code into a helper (or back) does not change what a rule sees"""
+    if id(prog) in _UNITS:
+        return _UNITS[id(prog)]
+    import os
+    import re as _re
+    words = set()
+    d = os.path.join(os.path.dirname(os.path.abspath(__file__)), "rules")
+    for f in os.listdir(d):
+        if f.endswith(".py"):
+            for lit in _re.findall(r'"([^"\\]*)"|\'([^\'\\]*)\'', open(os.path.join(d, f)).read()):
+                for w in _re.findall(r"[A-Za-z_][A-Za-z0-9_]*", lit[0] or lit[1]):
+                    words.add(w)
+    fns = {b.pretty.split("::")[-1] for b in prog.bodies.values() if b.kind not in ("closure", "promoted")}
+    _UNITS[id(prog)] = fns & words
+    return _UNITS[id(prog)]
+
+
+def trace(env, key, mode="w", entry=None, probe=None, inline=True):
+    """everything: sink writes or reads, all local calls with rendered arguments, stores to self, mutating library calls on self;
+    paths continue inside small loop-free local callees (the call token is kept as a marker)"""
     ex = Extractor(env, key, mode, entry)
+    ex.probe = probe
+    ex.inline = inline
+    units = named_units(env.prog)
+    ex.inline_pred = lambda cb, t: cb.pretty.split("::")[-1] not in units
     ex.all_local_calls = True
     ex.track_takes = True
     ex.track_stores = True
@@ -488,6 +607,8 @@ def fmt_tok(t):
         return "{%s:=%s}" % (t[1], t[2])
     if t[0] == "returns":
         return "=>%s%s" % (t[1], "".join(" {bb%d:[%s,%s]%s}" % (b, lo, hi, ("\\" + str(list(ex))) if ex else "") for b, lo, hi, ex in t[2]))
+    if t[0] == "probe":
+        return "PROBE<%s>" % (t[1],)
     if t[0] == "end":
         return "$" + t[1]
     if t[0] == "call":
